@@ -188,6 +188,9 @@ def check_mac_gate(ck, cx: Ctx):
         ck.ob("C23.mac-gate", fi, r.ast, key_ok, "the expected signature is computed by %s with the secret as key" % m.signer, construct="key of " + q.unparse(m.call)[:120])
         passed_ok = "value" in names_of(m.passed) and not any(is_signer_call(x) for x in ast.walk(m.passed))
         ck.ob("C23.mac-gate", fi, r.ast, passed_ok, "the compared signature is parsed from the input value (not recomputed)", construct="passed " + q.unparse(m.passed)[:120])
+        sp = strip_wrappers(m.passed)
+        verbatim = is_unpack(sp) is not None or (isinstance(sp, ast.Subscript) and isinstance(sp.slice, ast.Constant))
+        ck.ob("C23.mac-gate", fi, r.ast, verbatim, "the compared signature is one field of the input taken verbatim (no case folding, stripping or slicing, so every edit of it is noticed)", construct="verbatim " + q.unparse(m.passed)[:120])
         if m.mode is None:
             raise AnalysisError("%s: MAC input %s is in no recognised shape (argument list or prefix of the parsed buffer)" % (fi.qualname, q.unparse(m.call)))
     return macs
@@ -237,8 +240,11 @@ def classify_time_atoms(cx, r, atoms, m):
     for t, a in atoms.items():
         E = cx.rd.expand(a, r)
         role = None
-        if isinstance(E, ast.Call) and isinstance(E.func, ast.Name) and E.func.id in ("int", "float") and len(E.args) == 1:
-            role = ("ts", E.args[0])
+        inner = E.args[0] if isinstance(E, ast.Call) and isinstance(E.func, ast.Name) and E.func.id in ("int", "float") and len(E.args) == 1 else None
+        if inner is not None and ((isinstance(inner, ast.Call) and not inner.args and isinstance(inner.func, ast.Name) and base_id(inner.func) in params) or (isinstance(inner, ast.Name) and inner.id in params)):
+            E, inner = inner, None  # int(clock()) / float(max_age_days): the conversion does not change the role
+        if inner is not None:
+            role = ("ts", inner)
         elif isinstance(E, ast.Call) and not E.args and not E.keywords and ((isinstance(E.func, ast.Name) and base_id(E.func) in params) or q.dotted(E.func) == "time.time"):
             role = ("clock", None)
         elif isinstance(E, ast.Name) and E.id in params:
@@ -293,9 +299,9 @@ def check_v1_delimiter(ck, cx, r, m, ts_op):
     fi = cx.fi
     fut = None
     for cts, cclk, cage, const, op, text in time_facts(cx, r, m):
-        if cts < 0 and cclk == -cts and cage == 0 and const > 0:
+        if cts < 0 and cclk == -cts and cage == 0 and 0 < const / cclk <= 100 * 366 * 86400:
             fut = text
-    ck.ob("C23.v1-digit-shift", fi, r.ast, fut is not None, "undelimited MAC: return dominated by an upper bound 'timestamp <= clock() + const' (digits moved from the payload into the timestamp)%s" % (": " + fut if fut else ""),
+    ck.ob("C23.v1-digit-shift", fi, r.ast, fut is not None, "undelimited MAC: return dominated by an upper bound 'timestamp <= clock() + const' with const below 100 years (one shifted digit multiplies the timestamp by >= 10; digits moved from the payload into the timestamp)%s" % (": " + fut if fut else ""),
           construct="future bound before " + q.unparse(r.ast)[:80])
     lead = False
     for E, pol, text, _raw in cx.xfacts(r):
@@ -303,6 +309,12 @@ def check_v1_delimiter(ck, cx, r, m, ts_op):
             z = E.args[0]
             if isinstance(z, ast.Constant) and z.value in (b"0", "0") and ts_op is not None and same(strip_wrappers(E.func.value), strip_wrappers(ts_op)):
                 lead = True
+        eq = equality_fact(E, pol)
+        if eq and not eq[2] and ts_op is not None:
+            for a, b in ((eq[0], eq[1]), (eq[1], eq[0])):
+                if isinstance(b, ast.Constant) and b.value in (b"0", "0") and isinstance(a, ast.Subscript) and isinstance(a.slice, ast.Slice) and a.slice.lower is None and a.slice.step is None \
+                        and isinstance(a.slice.upper, ast.Constant) and a.slice.upper.value == 1 and same(strip_wrappers(a.value), strip_wrappers(ts_op)):
+                    lead = True
     ck.ob("C23.v1-digit-shift", fi, r.ast, lead, "undelimited MAC: return dominated by rejection of a timestamp with a leading '0' (zero digits moved from the payload)",
           construct="leading-zero test before " + q.unparse(r.ast)[:80])
 
@@ -378,6 +390,55 @@ def _is_version(cx, r, atom):
 
 
 # ---------------------------------------------------------------------------
+# pass-through of parameters (wrapper -> anchored function, entry -> format decoder)
+
+
+def _default_of(fi, pname):
+    a = fi.node.args
+    pos = a.posonlyargs + a.args
+    for arg, d in zip(pos[len(pos) - len(a.defaults):], a.defaults):
+        if arg.arg == pname:
+            return d
+    for arg, d in zip(a.kwonlyargs, a.kw_defaults):
+        if arg.arg == pname:
+            return d
+    return None
+
+
+def check_pass_through(ck, caller, callee):
+    """Every call of ``callee`` in ``caller`` hands each parameter the caller's same-named value
+    (the secret: the cookie_secret setting), and does not fall back to the callee's default for a
+    parameter the caller itself receives."""
+    rd = Reach(caller)
+    cparams = [p for p in callee.params()]
+    mine = set(caller.params())
+    n = 0
+    for node, c in caller.cfg.find(lambda x: isinstance(x, ast.Call) and isinstance(x.func, ast.Name) and x.func.id == callee.name):
+        n += 1
+        if any(isinstance(a, ast.Starred) for a in c.args) or any(k.arg is None for k in c.keywords):
+            raise AnalysisError("%s: call of %s with */** arguments" % (caller.qualname, callee.name))
+        given = {}
+        for i, a in enumerate(c.args):
+            if i < len(cparams):
+                given[cparams[i]] = a
+        for k in c.keywords:
+            given[k.arg] = k.value
+        for p_, a in given.items():
+            E = strip_wrappers(rd.expand(a, node))
+            ok = isinstance(E, ast.Name) and base_id(E) == p_
+            if p_ == "secret" and not ok:
+                ok = any(isinstance(x, ast.Constant) and x.value == "cookie_secret" for x in ast.walk(E))
+            if not ok and p_ not in mine and isinstance(E, ast.Constant):
+                dflt = _default_of(callee, p_)
+                ok = isinstance(dflt, ast.Constant) and dflt.value == E.value and type(dflt.value) is type(E.value)  # explicit default
+            ck.ob("C23.pass-through", caller, c, ok, "%s(...) receives the caller's own '%s' for its parameter '%s' (got %s)" % (callee.name, p_, p_, q.unparse(E)[:60]), construct="%s(%s=...)" % (callee.name, p_))
+        for p_ in cparams:
+            if p_ not in given and p_ in mine:
+                ck.ob("C23.pass-through", caller, c, False, "%s(...) is not given the caller's '%s' (the callee's default would silently replace it)" % (callee.name, p_), construct="%s(%s missing)" % (callee.name, p_))
+    return n
+
+
+# ---------------------------------------------------------------------------
 # role tables
 
 
@@ -394,7 +455,7 @@ def classify_enc_elt(enc, e):
     s = strip_wrappers(e)
     if isinstance(s, ast.Name) and s.id == "name":
         return ("name", s, formatted)
-    if any(isinstance(x, ast.Call) and q.dotted(x.func) == "base64.b64encode" for x in ast.walk(s)):
+    if any(isinstance(x, ast.Call) and (q.dotted(x.func) or "").startswith("base64.") and (q.dotted(x.func) or "").endswith("encode") for x in ast.walk(s)):
         return ("value", s, formatted)
     if any(isinstance(x, ast.Call) and not x.args and isinstance(x.func, ast.Name) and base_id(x.func) == "clock" for x in ast.walk(s)):
         return ("ts", s, formatted)
@@ -408,6 +469,20 @@ _NESTED = {}
 
 def enc_nested(enc):
     return [f.node for q_, f in enc.module.funcs.items() if q_.startswith(enc.qualname + ".<locals>.")]
+
+
+CODEC_PAIRS = {"base64.b64encode": "base64.b64decode", "base64.urlsafe_b64encode": "base64.urlsafe_b64decode", "base64.standard_b64encode": "base64.standard_b64decode"}
+
+
+def payload_codec(elts):
+    """(encoder codec name, payload encoded whole and byte-exact?) from the classified wire elements."""
+    for role, e, _f in elts:
+        if role == "value":
+            if isinstance(e, ast.Call) and q.dotted(e.func) in CODEC_PAIRS and len(e.args) == 1 and not e.keywords:
+                inner = strip_wrappers(e.args[0])
+                return q.dotted(e.func), isinstance(inner, ast.Name) and inner.id == "value"
+            return q.unparse(e)[:60], False
+    return None, False
 
 
 def is_join(e):
@@ -435,14 +510,14 @@ def encoder_tables(ck, enc):
             if len(sig) != 1:
                 raise AnalysisError("create_signed_value v%s: expected exactly one signature element" % ver)
             call = sig[0][1]
-            out[ver] = dict(mode="parts", sep=E.func.value.value, roles=[x[0] for x in elts], signer=call.func.id,
+            out[ver] = dict(mode="parts", sep=E.func.value.value, roles=[x[0] for x in elts], signer=call.func.id, codec=payload_codec(elts),
                             mac_roles=[classify_enc_elt(enc, a)[0] for a in call.args[1:]], ret=r, formatted=[x[2] for x in elts])
         elif isinstance(E, ast.BinOp) and isinstance(E.op, ast.Add) and is_signer_call(strip_wrappers(E.right)) and is_join(strip_wrappers(E.left)):
             T = strip_wrappers(E.left)
             call = strip_wrappers(E.right)
             elts = [classify_enc_elt(enc, x) for x in T.args[0].elts]
             signed_same = len(call.args) == 2 and same(strip_wrappers(call.args[1]), T)
-            out[ver] = dict(mode="buffer", sep=T.func.value.value, roles=[x[0] for x in elts] + ["sig"], signer=call.func.id, consts=[x[1] for x in elts if x[0] == "const"],
+            out[ver] = dict(mode="buffer", sep=T.func.value.value, roles=[x[0] for x in elts] + ["sig"], signer=call.func.id, codec=payload_codec(elts), consts=[x[1] for x in elts if x[0] == "const"],
                             signed_same=signed_same, ret=r, formatted=[x[2] for x in elts] + [False], key=call.args[0] if call.args else None)
         else:
             raise AnalysisError("create_signed_value v%s: wire format %s is in no recognised shape" % (ver, q.unparse(E)[:120]))
@@ -509,7 +584,13 @@ def check_tables_parts(ck, cx, r, m, P, ts_op, codec, tab):
             roles.append("?")
     ck.ob("C23.fields-agree", fi, r.ast, roles == tab["mac_roles"] and m.signer == tab["signer"], "MAC inputs of the decoder %s equal the encoder's %s (same signer %s)" % (roles, tab["mac_roles"], tab["signer"]),
           construct="mac order %s" % roles)
-    ck.ob("C23.fields-agree", fi, r.ast, codec == "base64.b64decode", "payload codec: encoder base64.b64encode <-> decoder %s" % codec, construct="codec %s" % codec)
+    check_codec(ck, fi, r, codec, tab)
+
+
+def check_codec(ck, fi, r, codec, tab):
+    enc_codec, whole = tab["codec"]
+    ck.ob("C23.fields-agree", fi, r.ast, codec is not None and CODEC_PAIRS.get(enc_codec) == codec, "payload codec: encoder %s <-> decoder %s are an inverse pair" % (enc_codec, codec), construct="codec %s" % codec)
+    ck.ob("C23.fields-agree", fi, r.ast, whole, "the encoder encodes the whole value byte-exactly (utf8(value), no stripping/case folding/slicing)", construct="payload byte-exact")
 
 
 def field_index(e, m):
@@ -530,7 +611,7 @@ def check_tables_buffer(ck, cx, r, m, P, ts_op, name_field, codec, tab, parser):
     ck.ob("C23.fields-agree", fi, r.ast, pos == want, "field positions used by the decoder %s equal the encoder's field order %s" % (sorted(pos.items()), sorted(want.items())),
           construct="positions %s" % sorted(pos.items(), key=lambda kv: kv[0]))
     ck.ob("C23.fields-agree", fi, r.ast, m.signer == tab["signer"] and tab["signed_same"], "decoder verifies with %s, the signer the encoder applies to the whole joined prefix" % tab["signer"], construct="signer " + m.signer)
-    ck.ob("C23.fields-agree", fi, r.ast, codec == "base64.b64decode", "payload codec: encoder base64.b64encode <-> decoder %s" % codec, construct="codec %s" % codec)
+    check_codec(ck, fi, r, codec, tab)
     # the key: secret, or secret[<authenticated key-version field>]
     ok = True
     for d in cx.rd.defs_at(r, "secret"):
@@ -834,6 +915,33 @@ def check_exceptions(ck, funcs, mac_ctx):
         ck.note(note)
 
 
+def check_none_input(ck, fi):
+    """A parameter whose annotation admits None (the cookie may be absent) is tested before it is used."""
+    cx = Ctx(ck, fi)
+    a = fi.node.args
+    n = 0
+    for arg in a.posonlyargs + a.args + a.kwonlyargs:
+        if arg.arg in CONFIG_PARAMS or arg.annotation is None or "None" not in q.unparse(arg.annotation):
+            continue
+        p_ = arg.arg
+        for node in fi.cfg.stmt_nodes():
+            if node.kind == "test":
+                continue
+            ds = cx.rd.defs_at(node, p_)
+            if not (len(ds) == 1 and ds[0].kind == "param"):
+                continue
+            from ..cfg import _node_roots
+
+            uses = [x for root in _node_roots(node) for x in q.walk_local(root) if isinstance(x, ast.Call) and any(isinstance(y, ast.Name) and y.id == p_ for y in ast.walk(x))]
+            if not uses:
+                continue
+            n += 1
+            f = cx.facts[node.id]
+            ok = (p_, True) in f or ("%s is None" % p_, False) in f
+            ck.ob("C23.exc-none", fi, uses[0], ok, "'%s' may be None (absent cookie): its first use is dominated by a test that returns None for it, so nothing raises" % p_)
+    return n
+
+
 # ---------------------------------------------------------------------------
 
 
@@ -845,11 +953,13 @@ def run(ck):
     ck.rule("C23.v1-digit-shift", "a MAC over an undelimited argument list is accompanied by the upper timestamp bound and the leading-zero rejection")
     ck.rule("C23.version-floor", "decode_signed_value returns a decoder result only when version >= min_version")
     ck.rule("C23.dispatch", "each format decoder is called only for the version whose signer it verifies, on the buffer the version was detected on")
+    ck.rule("C23.pass-through", "callers of the anchored functions pass every parameter on to the same-named parameter (no swapped, dropped or defaulted argument)")
     ck.rule("C23.fields-agree", "encoder and decoders agree on field order, arity, separators, length prefixes, codecs and MAC input order (roles derived by data flow)")
     ck.rule("C23.sig-keyed", "the signers are HMACs keyed by the secret over every data argument, whole and unconditionally")
     ck.rule("C23.version-detect", "_get_version: regex language, fallback to 1, parsed numbers >= 1000 are format 1")
     ck.rule("C23.exc-conversion", "conversions/unpacking of attacker-controlled text are inside a handler on the way to the public decoders, or act on a field of the single MAC-verified buffer after the MAC success")
     ck.rule("C23.exc-lookup", "indexing/lookup with attacker-controlled keys or lengths is guarded or handled")
+    ck.rule("C23.exc-none", "an input that may be None is tested before use in the public decoder")
     ck.rule("C23.exc-raise", "explicit raise/assert reaching the caller of the public decoders is not selected by attacker-controlled text")
 
     enc = ck.func(W, "create_signed_value")
@@ -893,6 +1003,11 @@ def run(ck):
         decoder_signer.setdefault(fi.qualname, "?")
 
     check_entry(ck, dec, decoder_signer, sv)
+    npt = check_pass_through(ck, dec, v1) + check_pass_through(ck, dec, v2)
+    for wrapper, callee in (("RequestHandler.get_signed_cookie", dec), ("RequestHandler.create_signed_value", enc), ("RequestHandler.get_signed_cookie_key_version", gkv)):
+        if ck.repo.has_func(W, wrapper):
+            npt += check_pass_through(ck, ck.func(W, wrapper), callee)
+    ck.floor("C23.pass-through", npt, 3, "calls of the anchored functions")
 
     # field parser + consumer
     tab2 = [t for t in tabs.values() if t["mode"] == "buffer"]
@@ -922,6 +1037,7 @@ def run(ck):
     for f in ck.repo.nested(parser):
         funcs[f.qualname] = ck.use(f)
     check_exceptions(ck, funcs, mac_ctx)
+    ck.floor("C23.exc-none", check_none_input(ck, dec), 1, "uses of the possibly-None input")
     ck.assume("A1: str.encode('utf-8') in utf8() does not raise (no lone surrogates)")
     ck.assume("A2: hmac.compare_digest on two bytes objects does not raise; logging calls do not raise; the caller-supplied clock() does not raise")
 
@@ -1004,6 +1120,17 @@ MUTANTS = [
     ("undo the F17a repair: v1 timestamp int() outside any handler", _in("_decode_signed_value_v1", replace_stmt(lambda st: isinstance(st, ast.Try) and any(isinstance(x, ast.Call) and q.call_attr(x) == "int" for b in st.body for x in ast.walk(b)), lambda st: st.body)), "C23.exc-conversion"),
     ("undo the F17b repair: assert on the input-selected v1 branch", _in("decode_signed_value", replace_stmt(lambda st: isinstance(st, ast.If) and "isinstance(secret, dict)" in ast.unparse(st.test), lambda st: [parse_stmt("assert not isinstance(secret, dict)")])), "C23.exc-raise"),
     ("F17b variant: raise on the input-selected v1 branch", _in("decode_signed_value", replace_stmt(lambda st: isinstance(st, ast.If) and "isinstance(secret, dict)" in ast.unparse(st.test), lambda st: [ast.If(test=st.test, body=[parse_stmt("raise ValueError('key-versioned secrets need format 2')")], orelse=[])])), "C23.exc-raise"),
+    ("seeded C23-adv1: isdigit() pre-check replaces the leading-zero rejection", _in("_decode_signed_value_v1", lambda root: _seed_adv1(root)), "C23.v1-digit-shift"),
+    ("leading-zero test indexes bytes (int never equals b'0')", _in("_decode_signed_value_v1", replace_expr(lambda n: isinstance(n, ast.Call) and q.call_attr(n) == "startswith", lambda n: parse_expr("parts[1][0] == b'0'"))), "C23.v1-digit-shift"),
+    ("future bound loosened to 1000 years", _in("_decode_signed_value_v1", replace_expr(lambda n: isinstance(n, ast.Constant) and n.value == 31, lambda n: ast.Constant(value=31 * 12 * 1000))), "C23.v1-digit-shift"),
+    ("entry passes a literal 31 days to the v2 decoder", _in("decode_signed_value", replace_expr(lambda n: isinstance(n, ast.Call) and isinstance(n.func, ast.Name) and n.func.id == "_decode_signed_value_v2", lambda n: ast.Call(func=n.func, args=n.args[:3] + [ast.Constant(value=31)] + n.args[4:], keywords=[]))), "C23.pass-through"),
+    ("get_signed_cookie drops max_age_days", lambda repo: mutate(repo, W, "RequestHandler.get_signed_cookie", lambda root: _drop_kw(root, "max_age_days")), "C23.pass-through"),
+    ("get_signed_cookie drops min_version", lambda repo: mutate(repo, W, "RequestHandler.get_signed_cookie", lambda root: _drop_kw(root, "min_version")), "C23.pass-through"),
+    ("encoder switches to urlsafe base64", _in("create_signed_value", replace_expr(lambda n: isinstance(n, ast.Attribute) and n.attr == "b64encode", lambda n: ast.Attribute(value=n.value, attr="urlsafe_b64encode", ctx=ast.Load()))), "C23.fields-agree"),
+    ("encoder strips the value before encoding", _in("create_signed_value", replace_expr(lambda n: isinstance(n, ast.Call) and q.dotted(n.func) == "base64.b64encode", lambda n: parse_expr("base64.b64encode(utf8(value).strip())"))), "C23.fields-agree"),
+    ("v2: signature compared case-insensitively", _in("_decode_signed_value_v2", replace_expr(lambda n: isinstance(n, ast.Call) and q.call_attr(n) == "compare_digest", lambda n: ast.Call(func=n.func, args=[parse_expr("passed_sig.lower()"), n.args[1]], keywords=[]))), "C23.mac-gate"),
+    ("v2: name compared case-insensitively", _in("_decode_signed_value_v2", replace_expr(lambda n: isinstance(n, ast.Compare) and "name_field" in ast.unparse(n), lambda n: parse_expr("name_field.lower() != utf8(name).lower()"))), "C23.name-bound"),
+    ("entry: the empty/None input test removed", _in("decode_signed_value", remove_stmts(lambda st: isinstance(st, ast.If) and ast.unparse(st.test) == "not value")), "C23.exc-none"),
     ("dispatch: v1 decoder called for version 2 values too", _in("decode_signed_value", replace_expr(lambda n: isinstance(n, ast.Compare) and ast.unparse(n) == "version == 1", lambda n: parse_expr("version <= 2"))), "C23.dispatch"),
 ]
 
@@ -1030,4 +1157,20 @@ def _swap_enc(root):
         if isinstance(x, ast.List) and len(x.elts) == 6:
             x.elts[2], x.elts[3] = x.elts[3], x.elts[2]
             return True
+    return False
+
+
+def _seed_adv1(root):
+    a = replace_expr(lambda n: isinstance(n, ast.Compare) and "len(parts)" in ast.unparse(n), lambda n: parse_expr("len(parts) != 3 or not parts[1].isdigit()"))(root)
+    b = remove_stmts(lambda st: isinstance(st, ast.If) and "startswith" in ast.unparse(st.test))(root)
+    return a and b
+
+
+def _drop_kw(root, name):
+    for x in ast.walk(root):
+        if isinstance(x, ast.Call) and isinstance(x.func, ast.Name) and x.func.id == "decode_signed_value":
+            k = [kw for kw in x.keywords if kw.arg != name]
+            if len(k) != len(x.keywords):
+                x.keywords = k
+                return True
     return False
